@@ -18,7 +18,8 @@ func init() {
 		Pkgs:      []string{"files"},
 		Run:       runC20,
 		Technique: "static analysis: forward taint from zip entry names to file-creating sinks (with summaries of repository helpers) sanitised only by a dominating containment guard; shape check of the containment predicate; path enumeration of the walk callback with a per-path boolean valuation; must-pass-through of Close between an open and the next iteration / the return; provenance agreement of the walk root with the directories that meet the walked path; taint to every file-system mutator including reads of captured variables at the points a closure runs; must-pass-through of create and copy between two entry acquisitions; element-read-to-return paths of the entry iterator (go/ssa)",
-		Explanation: "R1: no value derived from archive/zip entry names (File.Name / FileHeader.Name, through filepath.Join/Split/Dir/Clean/Base, concatenation, Sprintf, phi) reaches a file-system creating call (os.Create, os.OpenFile, os.Mkdir(All), os.WriteFile, os.Rename, and repository functions whose parameter reaches one) unless the sink is dominated by the true edge of a containment test applied to that value (or to the value it is the Dir of), or - asked per path, with phi nodes resolved to the operand the path selects - every path to the sink either carries no entry-name-derived value in the argument or knows a containment test on it to have succeeded; the test may be a predicate call or the same test spelled out in place (filepath.Rel with err == nil, rel != \"..\" and !HasPrefix(rel, \"..\"+separator) all known on the path); entry names are followed through repository helpers whose result derives from a parameter. " +
+		Explanation: "R17 (session 4): when the zip entry name is the walked path with the walk root cut off as a literal prefix (TrimPrefix/CutPrefix/slicing by len(root)), the root derives from filepath.Abs: Walk hands out cleaned joins, for root '.' the cut eats the first character of dot-names. " +
+			"R1: no value derived from archive/zip entry names (File.Name / FileHeader.Name, through filepath.Join/Split/Dir/Clean/Base, concatenation, Sprintf, phi) reaches a file-system creating call (os.Create, os.OpenFile, os.Mkdir(All), os.WriteFile, os.Rename, and repository functions whose parameter reaches one) unless the sink is dominated by the true edge of a containment test applied to that value (or to the value it is the Dir of), or - asked per path, with phi nodes resolved to the operand the path selects - every path to the sink either carries no entry-name-derived value in the argument or knows a containment test on it to have succeeded; the test may be a predicate call or the same test spelled out in place (filepath.Rel with err == nil, rel != \"..\" and !HasPrefix(rel, \"..\"+separator) all known on the path); entry names are followed through repository helpers whose result derives from a parameter. " +
 			"R3: the name ZipFolder/ZipWriter gives an archive entry derives from the walked file path only through injective operations (slicing off the source prefix, filepath.Rel, Join, ToSlash, TrimPrefix); cut-set trims, case folding, Replace and Base are rejected - a necessary condition of the lossless round trip. " +
 			"R4: files are created truncating (os.Create, or os.OpenFile with O_TRUNC/O_EXCL). " +
 			"R2: the containment test is filepath.IsLocal, or a repository predicate built from filepath.Rel plus the '..' test, or strings.HasPrefix against a prefix that ends with a path separator; a bare string-prefix test (which accepts sibling directories such as out-old for out) is rejected. " +
